@@ -265,19 +265,19 @@ ROUND5 = {
     "C01": "Reductions in the numpy twins take literal axes; the mean direction's outermost modulo (precedence included).",
     "C02": "npstats.tps returns 1 / vertex of the three-point parabola on every path, decided as a rational-function identity (sub-case shortcuts under their own condition); every xrstats peak statistic goes through its npstats kernel.",
     "C04": "GIL held around partition(); ihmax and the other ptm3 parameters reach the watershed (no unused parameter, operands in the slots they are named after); the step-2 candidate test decided by truth table whatever comparison operator it uses.",
-    "C05": "assign_coords never stamps another labelled object's coordinates onto data; the SWAN writer fixes the full named axis order.",
+    "C05": "assign_coords never stamps another labelled object's coordinates onto data; the SWAN writer fixes the full named axis order; signed np.diff of a kernel's caller-ordered direction argument is reported by the order provenance.",
     "C06": "GIL held around partition(); every apply_ufunc aligns by label (default join) and forwards operands in the slots of the kernel parameters they are named after.",
     "C09": "Deep-water celerity only without a depth (shared with C01).",
     "C10": "No narrowing cast after the last modulo 360 (found and repaired: npstats.dpm returned 360.0); dp's arg-max on the stored order and the full-precision peak locator (shared with C02).",
-    "C11": "SWAN writer: NODATA decided on a NaN-propagating reduction; each block written with the time stamps of the same positions; frequencies printed with >= 5 decimals.",
+    "C11": "SWAN writer: NODATA decided on a NaN-propagating reduction; each block written with the time stamps of the same positions; frequencies printed with >= 5 decimals; time encodings keep 64 bits; writers do not fill missing values (to_octopus exempt by table).",
     "C12": "Conversion factors are unconditional (no run-time 'already in degrees?' heuristic); the dispatcher's identifying sets are followed to module level.",
-    "C13": "TRIAXYS frequency axis = f0 + k df, k < nf, decided as a rational-function identity; epoch time stamps converted with an explicit time zone; Spotter positions stay per record.",
+    "C13": "TRIAXYS frequency axis = f0 + k df, k < nf, decided as a rational-function identity; epoch time stamps converted with an explicit time zone; Spotter positions stay per record; interp_spec zero-fills outside the source frequencies (shared with C08).",
     "C14": "The bbox tolerance widens all four sides (parallel assignments included); the idw combination uses no NaN-skipping reduction.",
     "C15": "The effective under_90 of every cartwright() call is False.",
-    "C16": "The rolling mean is not evaluated block by block unless both windowed dimensions are single chunks; its result is not cast to the input's dtype.",
+    "C16": "The rolling mean is not evaluated block by block unless both windowed dimensions are single chunks; its result is not cast to the input's dtype; the spacing entering the full-circle test is not rounded.",
     "C17": "DataArray.rename(name) shares the Variable; isinstance narrows a parameter's kind (attrs of a DataArray live on its Variable).",
     "C19": "Tracking tolerances reach the kernel in the slots of the parameters they are named after.",
-    "C20": "getattr-by-name results are called only under callable() with ValueError otherwise; elements of difference vectors are subscripted only under a length test; no function-scope static in specpart.c; the counting sort of ptsort is recognised structurally (its slot bound stays a stated assumption).",
+    "C20": "getattr-by-name results are called only under callable() with ValueError otherwise; elements of difference vectors are subscripted only under a length test; no function-scope static in specpart.c; the counting sort of ptsort is recognised structurally (its slot bound stays a stated assumption); every curve_fit of the fitting kernels is guarded against ValueError, RuntimeError and OptimizeWarning; differences of a possibly one-element axis are consumed only under a size test (found and repaired: tracker with one time step).",
 }
 ROUND4 = {
     "C01": "stats() with band limits = statistics of one split spectrum; Stokes-drift components related by theta - 90; wavenumber polynomial checked by coefficient / power pairing.",
